@@ -16,9 +16,13 @@ func walkBatches(q, t int) func(string) int {
 }
 
 func runWalks(c *harness.Ctx, walks, steps, hostile int, noSysDest bool, enabled ...string) {
+	runWalksOpt(c, walks, WalkOpts{Steps: steps, Hostile: hostile, NoSysDest: noSysDest}, enabled...)
+}
+
+func runWalksOpt(c *harness.Ctx, walks int, o WalkOpts, enabled ...string) {
 	r := c.Rand("walk")
 	for i := 0; i < walks; i++ {
-		w := NewWalk(r.Fork(uint64(i)), c.R, WalkOpts{Steps: steps, Hostile: hostile, NoSysDest: noSysDest}, enabled...)
+		w := NewWalk(r.Fork(uint64(i)), c.R, o, enabled...)
 		w.Run()
 		c.R.Eval(w.U.N.Seq())
 		if i == 0 && c.Batch == 0 {
